@@ -44,6 +44,10 @@ CLAIMED = {
         text="Lean 4 proof, over a table REGENERATED from the sources on every run, that every iteration over a HashMap/HashSet in non-test generator code is one of the four justified ones (adding an iteration over a hash container breaks the proof), plus permutation-invariance of the sorted-map construction that models the parser's BTreeMaps; the remaining truth lives in the YAML front end and the process hash seed, so the check runs the REAL binary on shipped fixtures and generated specs across modes and compares the output byte for byte between the base document, a fresh re-run, random key-order permutations at every object level, YAML and key-permuted YAML.",
         note="Partial by nature: proof covers the hash-iteration site table and the order-insensitivity of map construction; `output = f(parsed spec)` for the whole generator is validated by the CLI comparison, not proved. Known finding: object-valued examples are rendered in input key order.",
         ref="§6 C11"),
+    "C12": dict(
+        text="Lean 4 proofs: (1) over a table REGENERATED from the sources on every run, every potentially panicking or token-re-parsing construct in non-test code (unwrap/expect/panic!/unreachable!/format_ident!/Ident::new/parse::<TokenStream>/syn::parse_*) is in a reviewed list that names why it cannot fire or which known finding it is — a new such construct breaks the proof; (2) the allOf-depth recursion returns iff no allOf cycle is reachable (depth_terminates_iff, with the explicit fuel bound) and never returns on a cycle (for all fuel); (3) the three-step module write leaves the target unchanged only when it fails before the first file. The rest of the truth lives in the parser, tokio and the OS, so the check runs the REAL binary on fixtures and generated specs pushed through structure-aware mutators x 4 modes and on unwritable / non-directory / half-blocked targets, observing exit status, signals, time limit and the directory listing with content hashes before/after.",
+        note="Partial by nature: termination of the other loops is covered by Lean accepting the model definitions (structural or fuel with sufficiency lemmas in C07/C09/C10), not by a proof about the Rust code; the panic-site scan is regex-level. Known findings: allOf/alias cycles overflow the stack, OPTIONS/TRACE panic, identifier panics, schema-suffix variant panic, oas3 `$ref` parse panic, half-written module output.",
+        ref="§6 C12"),
 }
 PENDING = ["C01","C02","C03","C04","C05","C06","C07","C08","C10","C11","C12","C13","C14","C15","C16","C17","C18","C19","C20"]
 
